@@ -75,7 +75,7 @@ def join_case(draw):
             elif k == 0 or aligned_inputs:
                 labs.append(list(bl))
             else:
-                choice = draw(st.sampled_from(["equal", "permuted", "subset", "overlapping", "disjoint", "same-size-other", "same-size-other"]))
+                choice = draw(st.sampled_from(["equal", "permuted", "subset", "overlapping", "disjoint", "interior", "interior", "same-size-other", "same-size-other"]))
                 if choice == "same-size-other":
                     # same length, other labels: shape-compatible, so only a label check can refuse it
                     l = [x + "_" if kind == "s" else x + 100 for x in bl]
@@ -99,6 +99,30 @@ def join_case(draw):
 
 def strategy(tier):
     return join_case()
+
+
+def enumerate_cases(tier):
+    """two or three inputs over (x, y): how the SECONDARY axis y of the later inputs relates to the first input's x {stack, concatenate
+    along x} x {align off, align, align + sort} x label kind x which input differs"""
+    kinds = {"i": {"base": [3, 1, 2], "equal": [3, 1, 2], "permuted": [1, 2, 3], "subset": [3, 1], "superset": [3, 1, 2, 7], "overlapping": [1, 9],
+                   "disjoint": [8, 9], "interior": [3, 5, 2], "same-size-other": [3, 1, 102], "falsy": [3, 0, 2], "float-between": [3.0, 1.5, 2.0]},
+             "s": {"base": ["c", "a", "b"], "equal": ["c", "a", "b"], "permuted": ["a", "b", "c"], "subset": ["c", "a"], "superset": ["c", "a", "b", "q"],
+                   "overlapping": ["a", "z"], "disjoint": ["y", "z"], "interior": ["c", "m", "b"], "same-size-other": ["c", "a", "b_"], "falsy": ["c", "", "b"],
+                   "float-between": ["c", "10", "b"]}}
+    for kind, tab in kinds.items():
+        for rel, ly in tab.items():
+            if rel == "base":
+                continue
+            for func in ("stack", "concatenate"):
+                for align, sort in ((False, False), (True, False), (True, True)):
+                    for n_in, which in ((2, 1), (3, 1), (3, 2)):
+                        specs = []
+                        for k in range(n_in):
+                            lx = [10 * k + 1, 10 * k + 2] if func == "concatenate" else [1, 2]
+                            specs.append({"dims": ["x", "y"], "labels": [lx, list(ly) if k == which else list(tab["base"])], "vk": "f", "base": 50 * k})
+                        yield "secondary-axis-relations", {"func": func, "specs": specs, "cdim": "x" if func == "concatenate" else None, "caxis_form": "name",
+                                                           "keys": "default" if func == "concatenate" else "str", "container": "list", "align": align, "sort": sort,
+                                                           "newaxis": "stk"}
 
 
 # ----------------------------------------------------------------------------------------------
